@@ -388,7 +388,8 @@ pub fn run(tier: &str, seed: u64, replay: Option<String>) -> i32 {
         .filter(|(_, (c, _))| c != "ok" && c != "err")
         .map(|(k, (c, _))| format!("{} -> {}", k, c))
         .collect();
-    let usable = |op: &Value| refs.get(&op_key(op)).map(|(c, _)| c == "ok" || c == "err").unwrap_or(false);
+    let base_refs = refs.clone();
+    let usable = |op: &Value| base_refs.get(&op_key(op)).map(|(c, _)| c == "ok" || c == "err").unwrap_or(false);
     let conv_ops: Vec<Value> = conv_ops.into_iter().filter(|o| usable(o)).collect();
     let ind_ops: Vec<Value> = ind_ops.into_iter().filter(|o| usable(o)).collect();
     eprintln!(
@@ -438,6 +439,36 @@ pub fn run(tier: &str, seed: u64, replay: Option<String>) -> i32 {
                 });
                 n_pairs += 1;
             }
+        }
+    }
+    // editor sessions: every prefix of a session is recomputed in order in one process and
+    // must equal the same model computed alone in a fresh process
+    let n_sessions = if thorough { 1500 } else { 120 };
+    let mut session_ops: Vec<Value> = vec![];
+    let mut sessions: Vec<Vec<MEdit>> = modelfault::minimal_sessions().into_iter().map(|(_, o)| o).filter(|o| !o.is_empty()).collect();
+    for _ in 0..n_sessions {
+        sessions.push(modelfault::editor_session(&mut rng));
+    }
+    let mut session_cases: Vec<Vec<Value>> = vec![];
+    for ops in &sessions {
+        let chain: Vec<Value> = (1..=ops.len())
+            .map(|k| json!({"op":"indicators","base":"empty","edits":ops[..k],"require_all":false}))
+            .collect();
+        session_ops.extend(chain.iter().cloned());
+        session_cases.push(chain);
+    }
+    let session_refs = compute_refs(&session_ops, &scratch.dir);
+    let mut refs = refs;
+    refs.extend(session_refs);
+    let n_session_cases = session_cases.len();
+    for chain in session_cases {
+        // only chains whose every step has a usable isolated reference
+        if chain.iter().all(|o| refs.get(&op_key(o)).map(|(c, _)| c == "ok" || c == "err").unwrap_or(false)) {
+            cases.push(Case {
+                mode: "history",
+                job: json!({"t":"proc","threads":[chain],"sched":{"strategy":"rr","q":1000000},"sched_seed":0}),
+                env: env_of(0, None),
+            });
         }
     }
     let n_history_cases = cases.len() - n_fresh;
@@ -604,6 +635,7 @@ pub fn run(tier: &str, seed: u64, replay: Option<String>) -> i32 {
     extra.insert("cases_fresh_process".into(), json!(n_fresh));
     extra.insert("cases_history".into(), json!(n_history_cases));
     extra.insert("ordered_pairs".into(), json!(n_pairs));
+    extra.insert("editor_session_chains".into(), json!(n_session_cases));
     extra.insert("cases_schedule".into(), json!(n_sched));
     extra.insert("cases_unrelated_definition".into(), json!(n_edited));
     extra.insert("reference_pairs".into(), json!(corpus::reference_pairs().len()));
